@@ -2,7 +2,7 @@
    (op, ints, byte strings, impl-output tokens); the answer is a token list.
    Ops < 100 run the model; ops >= 100 are property oracles applied to what the
    implementation returned for the same case (out). *)
-From Verif Require Import Base Consts Packet PacketSpec.
+From Verif Require Import Base Consts Packet PacketSpec OpenSpec.
 
 Definition nthN (l : list N) (i : nat) : N := nth i l 0.
 Definition nthB (l : list bytes) (i : nat) : bytes := nth i l [].
@@ -120,6 +120,53 @@ Definition oracle (op : N) (ints : list N) (bs : list bytes) (out : list N) : li
           | _ => ok
           end
       | _ => bad 4  (* panic or garbage *)
+      end
+  | 104 => (* C02: accepted iff acceptable, with exactly the sender's id, hold time and capabilities;
+              refused with a notification naming a fault that this OPEN has *)
+      let lid := nthN ints 0 in let las := nthN ints 1 in let ras := nthN ints 2 in
+      let b := nthB bs 0 in
+      match out with
+      | 0 :: id :: hold :: r =>
+          match open_decode b, untok_caps r with
+          | Ok o, Some (caps, []) =>
+              if open_acceptable lid las ras o && (id =? o_id o) && (hold =? o_hold o)
+                 && beqb (flat_map tok_cap caps) (flat_map tok_cap (concat (o_params o)))
+                 && (N.of_nat (length caps) =? N.of_nat (length (concat (o_params o))))
+              then ok else bad 1
+          | _, _ => bad 2
+          end
+      | 1 :: c :: s :: r =>
+          match untok_bytes r with
+          | Some (d, []) =>
+              let n := mkNotif c s d in
+              if blen b <? 10 then
+                (if (c =? 1) && (s =? 2) && beqb d b then ok else bad 3)
+              else
+                match open_decode b with
+                | Ok o => if negb (open_acceptable lid las ras o) && semantic_fault lid las ras o n
+                          then ok else bad 4
+                | _ => if (c =? 2) && is_nil d
+                          && (((s =? 0) && fault_inconsistent b) || ((s =? 4) && fault_unknown_param b))
+                       then ok else bad 5
+                end
+          | _ => bad 6
+          end
+      | _ => bad 7
+      end
+  | 105 => (* C14: the OPEN sent is the canonical encoding of the intended OPEN, or nothing *)
+      let asn := nthN ints 0 in let hold := nthN ints 1 in let id := nthN ints 2 in
+      let caps := zip_caps (skipn 3 ints) bs in
+      if negb (cfg_wf asn hold id caps) then na else
+      let o := intended_open asn hold id caps in
+      match out with
+      | 0 :: r =>
+          match untok_bytes r with
+          | Some (m, []) =>
+              if open_repr o && beqb m (spec_frame_enc 1 (spec_open_body o)) then ok else bad 1
+          | _ => bad 3
+          end
+      | [1] => if open_repr o then bad 2 else ok
+      | _ => bad 4
       end
   | 106 => (* C15: re-encoding an accepted OPEN body reproduces it *)
       let b := nthB bs 0 in
